@@ -623,13 +623,7 @@ def grid_cases(max_len, lo, hi):
   steps = [None] + list(range(lo, hi + 1))
   for n in range(max_len + 1):
     init = list(range(10, 10 + n))
-    ops = []
-    for a in bounds:
-      for b in bounds:
-        for c in steps:
-          s = [a, b, c]
-          ops.append((n, s))
-    # one case per (n, start): keeps cases small, every op runs on a fresh list
+    # one single-operation case per (n, op, start, stop, step[, size]): every op runs on a fresh list
     for a in bounds:
       for o in ('getslice', 'delslice', 'setslice'):
         for b in bounds:
@@ -638,9 +632,10 @@ def grid_cases(max_len, lo, hi):
             if o == 'setslice':
               k = 0 if c == 0 else len(range(*slice(a, b, c).indices(n)))
               for m in sorted({k, 0, k + 1, max(0, k - 1)}):
-                yield {'kind': 'list', 'init': init, 'ops': [{'op': o, 's': s, 'vs': list(range(70, 70 + m))}]}
+                yield {'kind': 'list', 'init': init, 'src': 'grid',
+                       'ops': [{'op': o, 's': s, 'vs': list(range(70, 70 + m))}]}
             else:
-              yield {'kind': 'list', 'init': init, 'ops': [{'op': o, 's': s}]}
+              yield {'kind': 'list', 'init': init, 'src': 'grid', 'ops': [{'op': o, 's': s}]}
 
 
 # ------------------------------------------------------------------------------------------
@@ -651,7 +646,7 @@ class C02(Prop):
   driver = 'drv_c02'
   translators = []
   case_timeout_s = 20
-  rule = ('histories of 1-30 operations over the whole list / dict API (25 list ops, 17 dict ops), generated '
+  rule = ('histories of 1-30 operations over the whole list / dict API (28 list ops, 17 dict ops; quick 4000, thorough 100000 histories), generated '
           'while tracking the reference state so that indices are biased to -len-2 .. len+2, slices carry '
           'None / negative / zero steps, values are atoms (int, bool, None, str incl. path-like strings) and '
           'nested plain containers, ~7 % MISSING arguments, ~8 % of mutations under notify_on_change(False); '
@@ -671,7 +666,7 @@ class C02(Prop):
   # -- generation ----------------------------------------------------------------------------
   def generate(self, rng, tier):
     g = Gen(rng)
-    n = 1500 if tier == 'quick' else 60000
+    n = 4000 if tier == 'quick' else 100000
     for _ in range(n):
       yield g.history()
     if tier == 'quick':
@@ -763,7 +758,8 @@ class C02(Prop):
     return bool(impl_out.get('changed'))
 
   def describe(self, case, impl_out):
-    h = ['kind:' + case['kind'], 'ops:%d' % (10 * (len(case['ops']) // 10))]
+    src = case.get('src', 'history')
+    h = ['src:' + src, '%s:kind:%s' % (src, case['kind']), '%s:ops:%d' % (src, 10 * (len(case['ops']) // 10))]
     steps = impl_out['model']['spec']
     for op, st in zip(case['ops'], steps):
       k = '%s.%s' % (case['kind'], op['op'])
@@ -775,7 +771,7 @@ class C02(Prop):
       if op.get('nf'):
         h.append('notify-off')
     if not impl_out.get('changed'):
-      h.append('trivial')
+      h.append('%s:trivial' % src)
     if impl_out.get('fail'):
       h.append('diverged')
     return h
